@@ -1476,6 +1476,80 @@ func monC12(c *child.Ctx, replay json.RawMessage) {
 		}
 		c.Count("short_victim_streams", 1)
 	}
+	// a victim in the middle of a long run of frames that are intact but come with an
+	// error text (MSMs of constellations without a time scale in the handler, illegal
+	// timestamps): however many of those precede it, it is delivered, alone, and so is
+	// everything after it
+	nrun := c.Share(c.Pick(160, 3200))
+	for i := 0; i < nrun; i++ {
+		var s gen.Stream
+		n := r.Range(9, 24)
+		for j := 0; j < n; j++ {
+			tp := []int{1104, 1107, 1114, 1117, 1134, 1137}[r.Intn(6)]
+			var fb []byte
+			if r.Chance(1, 3) {
+				m := gen.RandMSM(r, gen.MSMOpts{Type: []int{1074, 1087, 1097, 1124}[r.Intn(4)]})
+				m.FixIllegalTime(r)
+				if p := ref.EncodeMSM(m); len(p) <= 200 {
+					fb = ref.Frame(p)
+					tp = m.Type
+				}
+			}
+			if fb == nil {
+				fb = timeFrame(r, tp, uint(r.Range(1, 80000000)))
+			}
+			s = append(s, gen.Seg{Kind: "frame", Type: tp, Bytes: fb})
+		}
+		s = append(s, gen.Junk(r), gen.RandFrame(r))
+		v := r.Range(7, n-1)
+		f := s[v].Bytes
+		for x := 0; x < 12; x++ {
+			gg := append([]byte(nil), f...)
+			bit := r.Range(24, len(f)*8-1)
+			gg[bit/8] ^= 1 << uint(7-bit%8)
+			runFault(s, v, gg, fmt.Sprintf("victim after %d intact frames that carry an error text, flip bit %d", v, bit))
+		}
+		c.Count("victims_in_runs_of_frames_with_error_text", 1)
+	}
+	// damage that spells words of other protocols into the victim (a caster's banner, a
+	// request line, an NMEA talker): they are just bytes of a damaged frame
+	relational = true
+	nword := c.Share(c.Pick(48, 960))
+	for i := 0; i < nword; i++ {
+		var s gen.Stream
+		ts := uint(r.Range(1000, 300000000))
+		cons := []string{"GPS", "Galileo", "Beidou"}[r.Intn(3)]
+		for f := 0; f < 4; f++ {
+			ts += uint(r.Range(1, 5000))
+			tp := ref.TypesOf(cons)[r.Intn(2)]
+			pl := ref.EncodeMSM(func() *ref.MSM {
+				m := gen.RandMSM(r, gen.MSMOpts{Type: tp, FixTimestamp: true, Timestamp: ts})
+				m.PadBytes = 24 // room for the words
+				return m
+			}())
+			if len(pl) > 300 {
+				continue
+			}
+			s = append(s, gen.Seg{Kind: "frame", Type: tp, Bytes: ref.Frame(pl)})
+		}
+		if len(s) < 3 {
+			continue
+		}
+		for _, word := range []string{"NTRIP", "ntrip", "ICY 200 OK", "SOURCETABLE", "GET / HTTP/1.1", "HTTP/1.1 200", "$GPGGA,", "\r\n\r\n", "ERROR", "EOF"} {
+			v := 1 + r.Intn(len(s)-2)
+			f := s[v].Bytes
+			if len(f) < len(word)+16 {
+				continue
+			}
+			gg := append([]byte(nil), f...)
+			copy(gg[len(gg)-3-len(word)-r.Intn(4):], word)
+			if !bytes.Equal(gg, f) {
+				runFault(s, v, gg, fmt.Sprintf("victim overwritten with %q", word))
+				c.Count("victims_overwritten_with_protocol_words", 1)
+			}
+		}
+	}
+	relational = false
 	// the three CRC bytes: every other value of each pair of them (2 x 65 535 per victim),
 	// through single-frame decoding - a weakened comparison accepts some of them
 	if c.Batch < 3 || c.Thorough() {
